@@ -23,7 +23,16 @@ Development self-test of the containment (not a registered check): C54_SELFTEST_
 the server use a harness-defined unconfined shell; the run must print VIOLATION and leave
 everything outside the scratch top untouched.
 
-Guards against false alarms: os.stat/isdir/exists are not audit events and are not demanded;
+Depth extensions: two sessions interleaved on one server (events are attributed through the control
+connection id of the most recent line — shell calls are synchronous inside lineReceived); leftover
+state (working directory removed/renamed under the session, the root itself removed, rename state
+across failed RNTO); fault injection (harness line ``XFAULT k ERRNO [call]``: the k-th filesystem call
+of the next command fails in the audit hook / probe wrapper like the OS would) — only the same
+oracle applies, the reply is not judged; every third command delivered in two TCP segments;
+os.stat/lstat/access/readlink wrapped in the server so that probes are observed and counted.
+
+Guards against false alarms: stat-style probes are counted, NOT judged (the statement lists open /
+list / create / rename / delete; os.makedirs legitimately stats ancestors);
 other logged failures (ENAMETOOLONG from very long names, ``NOOP x`` TypeError, transfer aborts)
 are only counted — they say nothing about confinement; events outside ``top`` that are not attack
 targets (lazy imports) are only counted; a client-side timeout or a dead server is inconclusive,
@@ -76,7 +85,8 @@ SHARDS = {"quick": 4, "thorough": 16}
 WATCHDOG_S = {"quick": 600, "thorough": 3000}
 FLOORS = {"sessions": 60, "opens_inside_root": 100, "listings_inside_root": 250, "mutations_inside_root": 250,
           "ev_os.mkdir": 100, "ev_os.remove": 30, "ev_os.rename": 50, "ev_os.rmdir": 30,
-          "sessions_sparse": 15, "rmdir_in_sparse_home": 60, "escape_attempt_commands": 700, "escape_attempts_refused_5xx": 500, "transfers_completed": 100}
+          "sessions_sparse": 15, "rmdir_in_sparse_home": 60, "sessions_interleaved_with_another": 40,
+          "faults_injected": 80, "commands_delivered_split": 1500, "stat_probes_inside_root": 3000, "escape_attempt_commands": 700, "escape_attempts_refused_5xx": 500, "transfers_completed": 100}
 READY = True
 
 REACTORS = ["select", "poll", "epoll", "asyncio"]
@@ -101,6 +111,7 @@ RW_VERBS = ["STOR", "APPE", "DELE", "RMD", "MKD", "RNFR"]
 TRANSFER = ("LIST", "NLST", "RETR", "STOR", "APPE")
 PAYLOAD = b"c54 upload payload\r\n" * 3
 HARNESS_FILES = ("server.err", "server.json")  # written by the harness directly under top
+PAIR_OFFSET = 10 ** 7  # case id of the session interleaved with case i is PAIR_OFFSET + i
 UNPRIV = 65534  # the server drops to this uid/gid when the harness runs as root (containment)
 EXIT_CANNOT_DROP = 77
 INTERPRETER_READS = (".py", ".pyc", ".pyi", ".so", ".pth")  # only reads of such files outside the scratch area are
@@ -168,11 +179,11 @@ class Layout:
             self._write(os.path.join(self.root, f))
         self.own(self.root)
 
-    def snapshot_outside(self, session_root):
-        """State of everything under top that is not inside session_root."""
+    def snapshot_outside(self, roots):
+        """State of everything under top that is not inside one of the session roots."""
         snap = {}
         for dirpath, dirnames, filenames in os.walk(self.top):
-            dirnames[:] = sorted(d for d in dirnames if os.path.join(dirpath, d) != session_root)
+            dirnames[:] = sorted(d for d in dirnames if os.path.join(dirpath, d) not in roots)
             filenames = sorted(f for f in filenames if f not in HARNESS_FILES)
             snap[dirpath] = ("dir", tuple(dirnames), tuple(filenames))
             for fn in filenames:
@@ -247,7 +258,8 @@ def _dot_variants():
     v += ["\xc0\xae\xc0\xae", "\xc0\xae.", ".\xc0\xae", "\xe0\x80\xae\xe0\x80\xae", "\xf0\x80\x80\xae\xf0\x80\x80\xae",
           "\xc3..", "..\xc3", "\xf0..", "..\xf0", "\xf0\x9f..", "..\xf0\x9f\x98", "\xed\xa0\x80..", "..\xed\xa0\x80", "\xed\xb0\x80..",
           "\xff..\xff", "\xff.\xff.\xff", "\xc3.\xc3.", ".\xed\xa0\x80.", "\xef\xbb\xbf..", "..\xef\xbf\xbe", "\x80..", "..\xbf\xbf",
-          "\xc2\xa0..", "..\xc2\xa0", "%c0%ae%c0%ae", "..%c0%af", "..%00", "%2e%2e%ff", "..\0\xff", "\xfe\xff..", ".\x00\x00."]
+          "\xc2\xa0..", "..\xc2\xa0", "%c0%ae%c0%ae", "..%c0%af", "..%00", "%2e%2e%ff", "..\0\xff", "\xfe\xff..", ".\x00\x00.",
+          "\xff\xff..", "..\xff\xff", ".\xff\xff.", "\xff\xf4..", "..\xff\xf2", "\xff\xfb\x01..", "..\r\0", "\r\0.."]  # telnet IAC doubling / commands / CR NUL
     return v
 
 
@@ -377,6 +389,51 @@ def count_ups(p):
     return sum(1 for s in re.split(r"[/\\]", p) if dots(s) >= 2)
 
 
+FAULT_ERRNOS = ["ENOENT", "EACCES", "EPERM", "ENOTDIR", "EISDIR", "EEXIST", "ENOSPC", "ENOTEMPTY", "EIO", "ELOOP", "ENAMETOOLONG"]
+
+
+FAULT_CALL = {"STOR": "open", "APPE": "open", "RETR": "open", "RNTO": "os.rename", "MKD": "os.mkdir", "RMD": "os.rmdir",
+              "DELE": "os.remove", "LIST": "os.listdir", "NLST": "os.listdir", "CWD": "os.listdir", "SIZE": "stat", "MDTM": "stat"}
+
+
+def fault_plan(rng, verb=None):
+    """Harness control line: the k-th filesystem call (audited call or stat-style probe; optionally only
+    calls of one kind, chosen to be the decisive call of the coming verb) the server makes under the
+    scratch top while processing the NEXT command fails with this errno."""
+    call = FAULT_CALL.get((verb or "").upper())
+    if call and rng.random() < 0.5:
+        return "XFAULT %d %s %s" % (rng.choice([1, 1, 1, 2]), rng.choice(FAULT_ERRNOS), call)
+    return "XFAULT %d %s" % (rng.choice([1, 1, 2, 2, 3, 4]), rng.choice(FAULT_ERRNOS))
+
+
+def leftover_state(rng, which, budget):
+    """State left behind by earlier commands (read-write user; ends with CWD /)."""
+    k = rng.randrange(1000)
+    if which == 4:  # the working directory is removed or renamed under the session's feet, then used
+        gone = rng.choice([["RMD /stale-%d" % k], ["RNFR /stale-%d" % k, "RNTO /moved-%d" % k],
+                           ["RNFR /stale-%d" % k, "RNTO /home/sub/moved-%d" % k], ["RMD /stale-%d/in" % k, "RMD /stale-%d" % k]])
+        use = [["PASV", "LIST"], ["PASV", "NLST"], ["PASV", "STOR f.txt"], ["MKD sub"], ["SIZE f.txt"], ["PASV", "RETR in"], ["RMD in"],
+               ["DELE f.txt"], ["CDUP"], ["CWD .."], ["CWD ."], ["PWD"], ["RNFR in", "RNTO ../out-%d" % k], ["MDTM ."], ["MKD ../peer-%d" % k],
+               ["PASV", "LIST .."], ["CWD in"], ["RNFR .", "RNTO ../self-%d" % k]]
+        rng.shuffle(use)
+        cmds = ["MKD /stale-%d/in" % k, "CWD /stale-%d" % k] + (["CWD in"] if rng.random() < 0.3 else []) + gone
+        for u in use[:rng.randrange(3, 8)]:
+            if rng.random() < 0.12:
+                u = u[:-1] + [fault_plan(rng, u[-1].split(" ")[0])] + u[-1:]
+            cmds += u
+        return cmds + ["CWD /"]
+    # which == 5: rename state across failures, and a failed command's leftovers feeding the next one
+    esc = hostile_path(rng, "rw", [], True, budget)
+    return rng.choice([
+        ["RNFR readme.txt", "RNTO " + esc, "RNTO /renamed-%d" % k, "PASV", "LIST /"],
+        ["RNFR " + esc, "RNTO /stolen-%d" % k, "SIZE /stolen-%d" % k],
+        ["RNFR /home/notes.txt", "PASV", "RNTO /home/n-%d" % k, "RNFR /nonexistent", "RNTO " + esc],
+        ["RNFR /home", fault_plan(rng), "RNTO /home-%d" % k, "CWD /home", "PASV", "LIST", "CWD /home-%d" % k, "PASV", "NLST"],
+        ["PASV", "STOR " + esc, "PASV", "STOR /up-%d" % k, "PASV", "RETR " + esc, "DELE /up-%d" % k],
+        ["MKD " + esc, "CWD " + hostile_path(rng, "rw", [], True, budget), "PWD", "MKD here-%d" % k, "RMD here-%d" % k],
+    ]) + ["CWD /"]
+
+
 def gen_sparse(rng):
     """Commands for the nearly empty home (root = base/homes/bob containing only `only/`, and
     base/homes containing only bob): ordinary MKD / RMD / DELE sequences that empty directories
@@ -399,6 +456,9 @@ def gen_sparse(rng):
         lambda: ["PASV", "LIST", "PASV", "NLST /", "SIZE only", "MDTM only"],
         lambda: ["CWD only", "RMD /only", "PWD", "PASV", "LIST", "CWD /"],
         lambda: ["RMD " + rng.choice([".", "/", "", "only/..", "./"])],
+        # the root itself removed (allowed: it is the root), then used: anything "falling back" to a parent is outside
+        lambda: ["RMD only", "RMD /", "PASV", "LIST", "PASV", "NLST", "CWD /", "CWD .", "PWD", "SIZE .", "MDTM /", "MKD back/again", "RMD back/again"],
+        lambda: ["CWD only", "RMD /only", "RMD /", "PASV", "LIST", "PASV", "STOR f.txt", "MKD sub", "CDUP", "PASV", "NLST", "CWD /"],
     ]
     cmds = []
     while len(cmds) < 30:
@@ -419,7 +479,12 @@ def gen_sparse(rng):
             cmds += (["PASV"] if verb in TRANSFER else []) + [verb + " " + arg]
             if verb == "RNFR":
                 cmds.append("RNTO " + hostile_path(rng, "sparse", [], True))
-    return cmds
+    out = []
+    for c in cmds:  # fault plans in front of some of the mutating / listing commands
+        if c.split(" ")[0] in ("RMD", "MKD", "DELE", "STOR", "RNTO", "LIST", "NLST", "CWD") and rng.random() < 0.07:
+            out.append(fault_plan(rng, c.split(" ")[0]))
+        out.append(c)
+    return out
 
 
 def gen_session(rng, index, nshards):
@@ -439,10 +504,14 @@ def gen_session(rng, index, nshards):
     cwd, cwd_ups = [], 0
     dirs = set(x for x in inside_names(kind) if "." not in x)
     n = 30
-    pieces = dict(zip(rng.sample(range(30), 4), range(4)))  # when to run the four decorated-dot probes
-    while n > 0:
+    pieces = dict(zip(rng.sample(range(30), 6), range(6)))  # when to run the decorated-dot probes (0-3) and
+    while n > 0:                                              # the leftover-state sequences (4, 5)
         n -= 1
-        if n in pieces:
+        if n in pieces and pieces[n] >= 4:
+            if kind == "rw":
+                cmds += leftover_state(rng, pieces[n], MAX_UPS_DESTRUCTIVE - cwd_ups)
+                cwd = []
+        elif n in pieces:
             more, cwd, cwd_ups = decorated_piece(rng, kind, index, pieces[n], cwd, cwd_ups)
             cmds += more
         r = rng.random()
@@ -479,8 +548,12 @@ def gen_session(rng, index, nshards):
             cmds.append("PASV")
         if rng.random() < 0.03:
             verb = verb.lower()
+        if rng.random() < 0.07:
+            cmds.append(fault_plan(rng, verb))
         cmds.append(verb + " " + arg if not (verb in ("LIST", "NLST") and arg == "" and rng.random() < 0.5) else verb)
         if verb.upper() == "RNFR":
+            if rng.random() < 0.1:
+                cmds.append(fault_plan(rng, "RNTO"))
             cmds.append("RNTO " + hostile_path(rng, kind, cwd, True, budget))
         if verb.upper() == "CWD":
             s = vsegs(cwd, arg)
@@ -586,6 +659,7 @@ class Client:
     def __init__(self, port):
         self.port = port
         self.sock = connect(port, self.TIMEOUT)
+        self.sock.setsockopt(socket.IPPROTO_TCP, socket.TCP_NODELAY, 1)
         self.buf = b""
         self.data = None
 
@@ -638,10 +712,16 @@ class Client:
                 rst_close(self.data)
             self.data = None
 
-    def command(self, line):
-        """Send one command line (latin-1 str) and consume its complete reply sequence."""
+    def command(self, line, split=None):
+        """Send one command line (latin-1 str, bytes go out verbatim; optionally in two segments cut at
+        `split`) and consume its complete reply sequence."""
+        data = line.encode("latin-1") + b"\r\n"
         try:
-            self.sock.sendall(line.encode("latin-1") + b"\r\n")
+            if split is not None and 0 < split < len(data):
+                self.sock.sendall(data[:split])
+                self.sock.sendall(data[split:])
+            else:
+                self.sock.sendall(data)
         except OSError:
             raise Closed()
         verb = line.split(" ", 1)[0].upper()
@@ -764,67 +844,117 @@ class Server:
 
 
 # ---- running and judging ------------------------------------------------------------------------------
-def run_session(ctx, layout, port, sess):
-    """Play one session; returns the record (replies, snapshot verdict) or raises Stall."""
-    kind = sess["user"]
-    R = layout.real(ROOT_T[kind])
-    layout.build_root()
-    before = layout.snapshot_outside(R)
-    rec = {"replies": [], "attempts": [], "closed_early": False}
-    cl = Client(port)
-    cwd, authed = [], False
-    try:
-        code, _ = cl.reply()
-        rec["replies"].append(["<greeting>", [code]])
-        cl.command("XSID %d" % sess["case"])
-        for tline in sess["commands"]:
-            line = layout.real(tline)
-            codes = cl.command(line)
-            rec["replies"].append([tline[:200], codes])
-            verb, _, arg = line.partition(" ")
-            verb = verb.upper()
-            ctx.count("cmd_" + verb)
-            ctx.count("reply_%dxx" % (codes[-1] // 100))
-            # mirror of the login state / cwd: used for counters (escape attempts) only
-            if verb == "PASS" and codes[-1] == 230:
-                authed, cwd = True, []
-            elif verb in ("CWD", "CDUP") and codes[-1] == 250:
-                s = vsegs(cwd, arg if verb == "CWD" else "..")
-                if s is None:
-                    ctx.count("cwd_mirror_disagrees")
-                else:
-                    cwd = s
-            if verb in RO_VERBS + RW_VERBS + ["RNTO"] and arg:
-                a = arg.replace("\0", "")
-                lex = posixpath.normpath(R + "/" + a) if a.startswith("/") else posixpath.normpath(posixpath.join(R, *cwd, a))
-                if not (lex == R or lex.startswith(R + "/")):
-                    rec["attempts"].append(tline[:120])
-                    ctx.count("escape_attempt_commands")
-                    if authed:
-                        ctx.count("escape_attempts_authenticated")
-                    if codes[-1] >= 500:
-                        ctx.count("escape_attempts_refused_5xx")
-                    elif 200 <= codes[-1] < 300:
-                        ctx.count("escape_attempts_answered_2xx")
-            if verb in TRANSFER and len(codes) > 1 and codes[-1] == 226:
-                ctx.count("transfers_completed")
-                ctx.count("transfer_bytes", getattr(cl, "moved", 0))
+class Play:
+    """One session being played command by command (so that two sessions can be interleaved)."""
+
+    def __init__(self, ctx, layout, port, sess):
+        self.ctx, self.layout, self.sess = ctx, layout, sess
+        self.R = layout.real(ROOT_T[sess["user"]])
+        self.rec = {"replies": [], "cwd_before": [[]], "attempts": [], "closed_early": False}
+        self.cwd, self.authed, self.k, self.done = [], False, 0, False
+        self.cl = Client(port)
         try:
-            for _ in range(3):
-                cl.reply()
+            code, _ = self.cl.reply()
+            self.rec["replies"].append(["<greeting>", [code]])
+            self.cl.command("XSID %d" % sess["case"])
         except Closed:
-            pass
-    except Closed:
-        rec["closed_early"] = True
-        ctx.count("sessions_closed_by_server")
+            self._closed()
+
+    def _closed(self):
+        self.rec["closed_early"] = True
+        self.ctx.count("sessions_closed_by_server")
+        self.done = True
+
+    def step(self):
+        """Send the next command; False when the session is over."""
+        if self.done or self.k >= len(self.sess["commands"]):
+            self.done = True
+            return False
+        ctx, R, rec = self.ctx, self.R, self.rec
+        tline = self.sess["commands"][self.k]
+        self.k += 1
+        line = self.layout.real(tline)
+        # every third command is delivered in two TCP segments, the split offset walking through the line
+        split = (self.sess["case"] * 7 + self.k * 3) % (len(line) + 2) if self.k % 3 == 0 else None
+        try:
+            codes = self.cl.command(line, split)
+        except Closed:
+            self._closed()
+            return False
+        if split is not None:
+            ctx.count("commands_delivered_split")
+        rec["replies"].append([tline[:200], codes])
+        rec["cwd_before"].append(list(self.cwd))  # mirror of the virtual cwd when this command was sent
+        verb, _, arg = line.partition(" ")
+        verb = verb.upper()
+        ctx.count("cmd_" + verb)
+        ctx.count("reply_%dxx" % (codes[-1] // 100))
+        # mirror of the login state / cwd: used for counters (escape attempts) only
+        if verb == "PASS" and codes[-1] == 230:
+            self.authed, self.cwd = True, []
+        elif verb in ("CWD", "CDUP") and codes[-1] == 250:
+            seg = vsegs(self.cwd, arg if verb == "CWD" else "..")
+            if seg is None:
+                ctx.count("cwd_mirror_disagrees")
+            else:
+                self.cwd = seg
+        if verb in RO_VERBS + RW_VERBS + ["RNTO"] and arg:
+            a = arg.replace("\0", "")
+            lex = posixpath.normpath(R + "/" + a) if a.startswith("/") else posixpath.normpath(posixpath.join(R, *self.cwd, a))
+            if not (lex == R or lex.startswith(R + "/")):
+                rec["attempts"].append(tline[:120])
+                ctx.count("escape_attempt_commands")
+                if self.authed:
+                    ctx.count("escape_attempts_authenticated")
+                if codes[-1] >= 500:
+                    ctx.count("escape_attempts_refused_5xx")
+                elif 200 <= codes[-1] < 300:
+                    ctx.count("escape_attempts_answered_2xx")
+        if verb in TRANSFER and len(codes) > 1 and codes[-1] == 226:
+            ctx.count("transfers_completed")
+            ctx.count("transfer_bytes", getattr(self.cl, "moved", 0))
+        return True
+
+    def finish(self):
+        if not self.rec["closed_early"]:
+            try:
+                for _ in range(3):
+                    self.cl.reply()
+            except Closed:
+                pass
+        self.cl.close()
+        return self.rec
+
+
+def run_session(ctx, layout, port, sess, other=None):
+    """Play one session — or two interleaved ones on the same server (sess["mix"] says whose turn it
+    is) — and compare the tree outside the root(s) before/after.  Returns {case: record}; may raise Stall."""
+    group = [sess] + ([other] if other else [])
+    roots = [layout.real(ROOT_T[x["user"]]) for x in group]
+    layout.build_root()
+    before = layout.snapshot_outside(roots)
+    plays = []
+    try:
+        plays = [Play(ctx, layout, port, x) for x in group]
+        if other is None:
+            while plays[0].step():
+                pass
+        else:
+            for turn in sess["mix"]:
+                plays[turn].step()
+            for pl in plays:
+                while pl.step():
+                    pass
+        recs = {pl.sess["case"]: pl.finish() for pl in plays}
     finally:
-        cl.close()
-    after = layout.snapshot_outside(R)
+        for pl in plays:
+            pl.cl.close()
+    after = layout.snapshot_outside(roots)
     if after != before:
         diff = sorted(k for k in set(before) | set(after) if before.get(k) != after.get(k))
-        rec["outside_diff"] = [[layout.templ(k), before.get(k), after.get(k)] for k in diff[:6]]
+        recs[sess["case"]]["outside_diff"] = [[layout.templ(k), before.get(k), after.get(k)] for k in diff[:6]]
         layout.build_base()
-    return rec
+    return recs
 
 
 def classify_arg(arg, path, R):
@@ -851,18 +981,32 @@ def classify_arg(arg, path, R):
 def judge(ctx, layout, sessions, records, log):
     """Attribute the server's ordered log to sessions/commands and apply the oracle."""
     by_case = {s["case"]: s for s in sessions}
+    conns = {}  # control connection id -> [session, command number]; shell calls are synchronous inside
+    # lineReceived, so a filesystem event belongs to the most recent control line of ANY connection
     cur, cur_line, cur_idx = None, None, 0
     per_case = {}
     system = set(SYSTEM_TARGETS)
+
+    def base(cur):
+        w = {"case": cur["case"], "reactor": cur["reactor"], "user": cur["user"], "commands": cur["commands"]}
+        other = by_case.get(cur.get("pair", cur.get("pair_of")))
+        if other is not None:  # interleaved with another session on the same server: replay needs both
+            a, b = (cur, other) if "pair" in cur else (other, cur)
+            w.update({"case": a["case"], "user": a["user"], "commands": a["commands"], "mix": a["mix"],
+                      "other": {"case": b["case"], "user": b["user"], "commands": b["commands"]},
+                      "offending_session": "first" if cur is a else "other (interleaved)"})
+        return w
+
     for ent in log:
         if ent[0] == "L":
-            if ent[1].startswith("XSID "):
-                cur = by_case.get(int(ent[1][5:]))
-                cur_line, cur_idx = None, 0
+            if ent[2].startswith("XSID "):
+                conns[ent[1]] = [by_case.get(int(ent[2][5:])), 0]
+                cur, cur_line, cur_idx = conns[ent[1]][0], None, 0
                 per_case[cur["case"]] = {"inside": 0, "rmdir": 0, "events": []}
-            else:
-                cur_line = ent[1]
-                cur_idx += 1  # records[case]["replies"][cur_idx] is this command (index 0 = greeting)
+            elif ent[1] in conns:
+                conns[ent[1]][1] += 1  # records[case]["replies"][n] is this command (index 0 = greeting)
+                cur, cur_idx = conns[ent[1]]
+                cur_line = ent[2]
             continue
         if ent[0] == "I":  # module imported while serving (after the uid drop): evidence for preload()
             ctx.count("lazy_imports_while_serving")
@@ -876,6 +1020,18 @@ def judge(ctx, layout, sessions, records, log):
             continue
         R = layout.real(ROOT_T[cur["user"]])
         pc = per_case[cur["case"]]
+        if ent[0] == "S":  # os.stat/lstat/access/readlink: no such verb in the statement -> observed, NOT judged
+            p = ent[2]
+            if len(ent) > 3:
+                ctx.count("faults_injected")
+            if p == R or p.startswith(R + os.sep):
+                ctx.count("stat_probes_inside_root")
+            elif (R + os.sep).startswith(p.rstrip("/") + os.sep):
+                ctx.count("stat_probes_of_root_ancestors")  # e.g. makedirs after the root itself was removed
+            elif p.startswith(layout.top + os.sep) or p in system or p.startswith("/etc/"):
+                ctx.count("stat_probes_outside_root_unjudged")
+                ctx.seen("stat_probes_outside_root", "%s %s" % ((cur_line or "").split(" ", 1)[0].upper(), layout.templ(p)[-70:]))
+            continue
         if ent[0] == "F":
             ctx.count("server_logged_failures")
             ctx.seen("logged_failure_types", ent[1])
@@ -885,17 +1041,21 @@ def judge(ctx, layout, sessions, records, log):
                 ctx.violation("insecure-path-reached-filepath-layer",
                               "toSegments passed an escaping path to the shell; only FilePath.child's InsecurePath stopped it "
                               "(logged as an unexpected FTP error)",
-                              {"case": cur["case"], "reactor": cur["reactor"], "user": cur["user"], "commands": cur["commands"],
+                              {**base(cur),
                                "offending_command": layout.templ(cur_line), "command_number": cur_idx,
                                "failure": [layout.templ(x) for x in ent[1:4]], "root": ROOT_T[cur["user"]]})
             continue
         _, event, paths, raw, blocked = ent
         ctx.count("fs_events")
+        if isinstance(blocked, str):  # "fault:<errno>": the harness made this call fail
+            ctx.count("faults_injected")
+            ctx.count("faults_injected_in_" + event)
+            blocked = False
         if blocked:
             ctx.count("operations_refused_by_containment_guard")
         if event in GUARD_ONLY_EVENTS:
             ctx.violation("guard-refused-" + event.replace("os.", ""), "the server tried %s (refused by the containment guard)" % event,
-                          {"case": cur["case"], "reactor": cur["reactor"], "user": cur["user"], "commands": cur["commands"],
+                          {**base(cur),
                            "offending_command": layout.templ(cur_line), "event": event, "arguments": raw})
             continue
         if event == "hook-error":
@@ -925,9 +1085,17 @@ def judge(ctx, layout, sessions, records, log):
                 arg = (cur_line or "").partition(" ")[2]
                 how = classify_arg(arg, p, R)
                 where = "scratch" if (p + os.sep).startswith(layout.top + os.sep) else "system-path"
-                ctx.violation("outside-root-%s-via-%s" % (event.replace("os.", ""), how) + ("" if where == "scratch" else "-system-path"),
+                key = "outside-root-%s-via-%s" % (event.replace("os.", ""), how) + ("" if where == "scratch" else "-system-path")
+                before = records.get(cur["case"], {}).get("cwd_before", [])
+                if (event == "os.mkdir" and verb == "MKD" and (R + os.sep).startswith(p + os.sep) and cur_idx < len(before)
+                        and vsegs(before[cur_idx], arg) is not None):
+                    # The argument is a legitimate path (the root or below, by the resolution rules) and the
+                    # mkdir hits a strict ancestor of the root: os.makedirs walking above a missing root /
+                    # a parent it could not stat.  findings/C54-mkd-creates-missing-ancestors-of-root.md
+                    key = "mkd-creates-missing-ancestors-of-root"
+                ctx.violation(key,
                               "FTP server performed %s on a path outside the shell root while processing %s" % (event, verb),
-                              {"case": cur["case"], "reactor": cur["reactor"], "user": cur["user"], "commands": cur["commands"],
+                              {**base(cur),
                                "offending_command": layout.templ(cur_line), "event": event, "path": layout.templ(p),
                                "raw_argument": [layout.templ(x) for x in raw], "root": ROOT_T[cur["user"]],
                                "expected": "every audited path is the root or inside root + '/'",
@@ -949,10 +1117,11 @@ def judge(ctx, layout, sessions, records, log):
         ctx.count("sessions")
         ctx.count("sessions_" + s["reactor"])
         ctx.count("sessions_" + s["user"])
+        if "pair" in s or "pair_of" in s:
+            ctx.count("sessions_interleaved_with_another")
         if "outside_diff" in rec:
             ctx.violation("outside-tree-modified", "the tree outside the shell root changed during an FTP session",
-                          {"case": s["case"], "reactor": s["reactor"], "user": s["user"], "commands": s["commands"],
-                           "root": ROOT_T[s["user"]], "changed(before,after)": rec["outside_diff"],
+                          {**base(s), "root": ROOT_T[s["user"]], "changed(before,after)": rec["outside_diff"],
                            "replies": rec["replies"][-10:]})
         if (rec["attempts"] and pc["inside"] > 0) or (s["user"] == "sparse" and pc["rmdir"] > 0):
             ctx.distinct(tuple(s["commands"]))
@@ -982,10 +1151,13 @@ def run_batch(ctx, reactor, sessions):
             return
         ctx.seen("reactors", reactor)
         records = {}
+        partners = {s["pair_of"]: s for s in sessions if "pair_of" in s}
         for s in sessions:
+            if "pair_of" in s:
+                continue  # played together with its partner
             PACER.between_sessions()
             try:
-                records[s["case"]] = run_session(ctx, layout, srv.port, s)
+                records.update(run_session(ctx, layout, srv.port, s, partners.get(s["case"])))
             except (Stall, OSError) as e:
                 ctx.inconclusive("watchdog: client stalled in case %d on %s (%r): %s" % (s["case"], reactor, e, srv.err_tail()[-300:]))
                 break
@@ -1011,14 +1183,29 @@ def run(ctx):
     for i in ctx.cases(300, 20000):  # DESIGN asked 30 k (731 s at load 70-87 on the shared box); 20 k runs in ~3 min, budget 10 min
         s = gen_session(ctx.case_rng(i), i, ctx.nshards)
         groups.setdefault(s["reactor"], []).append(s)
+        if i % 7 == 3:  # a second session interleaved with this one on the same server
+            o = gen_session(ctx.case_rng(i, "other"), PAIR_OFFSET + i, ctx.nshards)
+            o["reactor"], o["pair_of"] = s["reactor"], i
+            mix = ctx.case_rng(i, "mix")
+            s["pair"], s["mix"] = o["case"], [mix.randrange(2) for _ in range(len(s["commands"]) + len(o["commands"]))]
+            groups[s["reactor"]].append(o)
     for reactor in REACTORS:
         todo = groups.get(reactor, [])
-        for k in range(0, len(todo), 400):
-            run_batch(ctx, reactor, todo[k:k + 400])
+        batch = []
+        for s in todo + [None]:
+            if batch and (s is None or (len(batch) >= 400 and "pair_of" not in s)):
+                run_batch(ctx, reactor, batch)
+                batch = []
+            batch.append(s)
     ctx.count("pacing_sleep_ms", int(PACER.slept * 1000))  # evidence only: time spent keeping the port range usable
 
 
 def replay(ctx, w):
     x = w["witness"]
     s = {"case": x.get("case", 0), "user": x["user"], "reactor": x["reactor"], "commands": x["commands"]}
-    run_batch(ctx, s["reactor"], [s])
+    group = [s]
+    if "other" in x:
+        o = dict(x["other"], reactor=x["reactor"], pair_of=s["case"])
+        s["pair"], s["mix"] = o["case"], x["mix"]
+        group.append(o)
+    run_batch(ctx, s["reactor"], group)
